@@ -23,7 +23,7 @@ generalized_rush_larsen step (dt 0.01) of the numpy modules generated from the o
 (thorough 6) points from modelgen.valid_points (default point + random/special points where the independent reference
 evaluator is finite and not near a discontinuity); tolerance rtol 1e-9 + 1e-12 x cancellation scale, and a mismatch is
 only reported when it exceeds 100 x the original module's own sensitivity to a 1e-12 relative input perturbation.
-Models: ~45 hand-written texts (one per construct named in the property: exp(1), negated comparisons, nested
+Models: 46 hand-written texts (one per construct named in the property: exp(1), negated comparisons, nested
 conditionals, And/Or with 2..4 operands, rational exponents, extreme literals, pi/time, Mod/floor/abs,
 ContinuousConditional, ScalarParam annotations, trailing units, components incl. two-level names, unused names, negative
 values), the repository .ode files (quick: 3 small; thorough: all 6), modelgen models (1-5 states, 0-5 parameters, 0-8
@@ -271,8 +271,22 @@ def compare_numeric(ode, o2, text, points, res, add, ref):
         add(f"C11:reloaded-{e.kind}", "code generation / import of the generated module fails for the reloaded model but not for the original", "module", cm.exc_name(e.exc), cm.short(e), shrink=True)
         return 0
     npts = 0
-    for pt in points:
-        if ref is not None:
+    queue = [(pt, ref is not None) for pt in points]
+    fallback = False
+    while queue or (npts == 0 and not fallback):
+        if not queue:  # the reference cannot evaluate the model at all (large published models): the model's own default point, unfiltered
+            fallback = True
+            dp = default_points(ode)[0]
+            if ref is not None:
+                try:
+                    ref.evaluate(dp["t"], dp["states"], dp["params"])
+                    break  # the reference can evaluate it but calls it fragile / it was tried already
+                except mg.RefError:
+                    pass
+            cm.note(res, "default-point-without-reference-filter")
+            queue.append((dp, False))
+        pt, filt = queue.pop(0)
+        if filt:
             pt = cm.restrict_point(pt, ref)
             if mg.point_ok(ref, pt) is None:
                 continue
@@ -317,7 +331,8 @@ def compare_numeric(ode, o2, text, points, res, add, ref):
                 sig = f"C11:rhs-changed:{cm.main_feature(text, ['d' + n + '_dt' for n in names]) if ref is not None else 'unknown'}"
                 base = "C11:rhs-changed"
             elif what == "monitor":
-                sig = base = "C11:monitor-changed"
+                base = "C11:monitor-changed"
+                sig = f"{base}:{cm.main_feature(text, names) if ref is not None else 'unknown'}"
             else:
                 sig = base = f"C11:scheme-changed:{what.split(':')[1]}"
             add(sig, f"{what} values of {names[:4]} differ between the original and the reloaded model", {n: v1[what][n] for n in names[:6]}, {n: real[n] for n in names[:6]},
@@ -371,7 +386,7 @@ def roundtrip(text, points, res, shr, ode=None, what="model", upto=None):
                 ode.save(path)
             state["saved"] = saved = open(path).read()
         except Exception as e:  # noqa: BLE001
-            sig = f"C11:save-raises:{cm.exc_site(e)}"
+            sig = f"C11:save-raises:{cm.exc_site(e)}" + (f":{e.name}" if isinstance(e, AttributeError) and getattr(e, "name", None) else "")
             also = ""
             try:
                 cm.py_code(ode)
